@@ -16,11 +16,12 @@ PLAN = {
                                   [f for f in (T.oracle_components(h) if h.family != "ent" else T.oracle_entities(h)) if f[0] == "C09"]),
                 slices=["comp"], slice_families=("comp", "ent"), ref="§7 C09"),
     # join histories (new clients joining while others spawn / despawn): the entity-set part of the join oracle, for
-    # newcomers and established clients (what a *returning* client keeps is C03's subject, finding D16)
+    # newcomers and established clients (what a *returning* client keeps is C03's subject, finding D16; a second replica of a
+    # uuid on a returning client is C01's)
     "C01": dict(families=[("ent", 40, 400), ("join", 12, 120)],
                 oracle=lambda h: ([f for f in T.oracle_entities(h) if f[0] == "C01"] if h.family == "ent" else
                                   [("C01",) + f[1:] for f in T.oracle_join(h)
-                                   if "returning client" not in f[1] and ("live entities with the same uuid" in f[1] or "synchronized entities" in f[1])]),
+                                   if "live entities with the same uuid" in f[1] or ("returning client" not in f[1] and "synchronized entities" in f[1])]),
                 slices=["ent"], slice_families=("ent",), ref="§7 C01"),
     "C15": dict(families=[("conn", 40, 400)], oracle=lambda h: T.oracle_conn(h), slices=["conn"], ref="§7 C15"),
     # join histories: hierarchies delivered through the joining snapshot while links keep being set (the parent-link part of
